@@ -2,12 +2,42 @@ package goat
 
 import (
 	"context"
+	"errors"
 	"sync"
 )
 
+var errDemuxConnCancelled = errors.New("demux connection cancelled")
+
+// demuxConn is one logical connection of a Demux. It is also the RpcReadWriter
+// handed to onNewConnection.
 type demuxConn struct {
 	r chan *Rpc
 	w chan *Rpc
+	// done is closed when the connection is cancelled. r and w are never
+	// closed: the run loop and writers may be sending on them at any time.
+	done chan struct{}
+}
+
+func (c *demuxConn) Read(ctx context.Context) (*Rpc, error) {
+	select {
+	case <-ctx.Done():
+		return nil, ctx.Err()
+	case <-c.done:
+		return nil, errDemuxConnCancelled
+	case rpc := <-c.r:
+		return rpc, nil
+	}
+}
+
+func (c *demuxConn) Write(ctx context.Context, rpc *Rpc) error {
+	select {
+	case <-ctx.Done():
+		return ctx.Err()
+	case <-c.done:
+		return errDemuxConnCancelled
+	case c.w <- rpc:
+		return nil
+	}
 }
 
 // Wraps a Goat Server, demultiplexing IO.
@@ -66,7 +96,13 @@ func (gsd *Demux) Run() {
 		}
 		gsd.conns.Unlock()
 
-		conn.r <- rpc
+		select {
+		case conn.r <- rpc:
+		case <-conn.done:
+			// cancelled since we looked it up: nobody will read this
+		case <-gsd.ctx.Done():
+			return
+		}
 	}
 }
 
@@ -75,8 +111,7 @@ func (gsd *Demux) Cancel(id string) {
 	defer gsd.conns.Unlock()
 
 	if conn, ok := gsd.conns.value[id]; ok {
-		close(conn.r)
-		close(conn.w)
+		close(conn.done)
 	}
 
 	delete(gsd.conns.value, id)
@@ -84,8 +119,9 @@ func (gsd *Demux) Cancel(id string) {
 
 func (gsd *Demux) newConnLocked(id string) *demuxConn {
 	c := &demuxConn{
-		r: make(chan *Rpc),
-		w: make(chan *Rpc),
+		r:    make(chan *Rpc),
+		w:    make(chan *Rpc),
+		done: make(chan struct{}),
 	}
 
 	go func() {
@@ -93,10 +129,9 @@ func (gsd *Demux) newConnLocked(id string) *demuxConn {
 			select {
 			case <-gsd.ctx.Done():
 				return
-			case rpc, ok := <-c.w:
-				if !ok {
-					return
-				}
+			case <-c.done:
+				return
+			case rpc := <-c.w:
 				err := gsd.rw.Write(gsd.ctx, rpc)
 				if err != nil {
 					return
@@ -107,7 +142,7 @@ func (gsd *Demux) newConnLocked(id string) *demuxConn {
 
 	gsd.conns.value[id] = c
 
-	go gsd.onNewConnection(NewGoatOverChannel(c.r, c.w))
+	go gsd.onNewConnection(c)
 
 	return c
 }
